@@ -82,6 +82,8 @@ Exp(cfg, S, e) ==
     [] e.op = "setdefault" -> IF m[e.k] # 0 THEN [same EXCEPT !.ri = m[e.k]]
                               ELSE [put([m EXCEPT ![e.k] = e.v]) EXCEPT !.ri = e.v]
     [] e.op \in {"update", "updatekw"} -> put([m EXCEPT ![e.k] = e.v, ![e.k2] = e.v2])
+    \* update({k: v, k2: <a value the encoding cannot store>}): all or nothing
+    [] e.op = "updatebad" -> IF e.exc = "none" THEN put([m EXCEPT ![e.k] = e.v, ![e.k2] = BAD]) ELSE [same EXCEPT !.exc = "error"]
     [] e.op = "clear"    -> put(EmptyMap(nk))
     [] e.op = "copy"     -> [same EXCEPT !.c = [S.c EXCEPT ![e.o] = m], !.ex = [S.ex EXCEPT ![e.o] = TRUE]]
     [] e.op \in {"eq", "eqx", "xeq"} -> [same EXCEPT !.ri = IF m = S.c[e.o] THEN 1 ELSE 0]
@@ -91,7 +93,7 @@ Exp(cfg, S, e) ==
 Failed(props, cfg, S, e) ==
   LET x == Exp(cfg, S, e)
       mutating == e.op \in {"set", "setbad", "del", "pop", "popd", "popitem", "popkeys", "popkeysd", "setdefault",
-                            "update", "updatekw", "clear"}
+                            "update", "updatekw", "updatebad", "clear"}
       others == {l \in 1..Len(S.c) : l # e.loc /\ ~(e.op = "copy" /\ l = e.o)}
   IN   Chk(props, "C03", "C03.Raises", (x.exc = "none") = (e.exc = "none"))
   \cup Chk(props, "C03", "C03.KeyErrorExactly", (x.exc = "KeyError") = (e.exc = "KeyError"))
